@@ -21,6 +21,12 @@ type ArchiveInfoList []ArchiveInfo
 // ArchiveIDBest is used to find the best archive for time range in FetchFromArchive.
 const ArchiveIDBest = -1
 
+// Limits of the 32-bit fields of the whisper file format.
+const (
+	maxDuration = 1<<31 - 1 // Duration is int32
+	maxOffset   = 1<<32 - 1 // offsets are uint32
+)
+
 // ErrArchiveIDOutOfRange is the error when an archive ID if out of range.
 var ErrArchiveIDOutOfRange = errors.New("archive ID out of range")
 
@@ -158,6 +164,12 @@ func (aa ArchiveInfoList) validate() error {
 		}
 		if a.offset != off {
 			return fmt.Errorf("invalid archive%v: invalid offset got:%v, want:%v", i, a.offset, off)
+		}
+		if int64(a.secondsPerPoint)*int64(a.numberOfPoints) > maxDuration {
+			return fmt.Errorf("invalid archive%v: retention %v x %v points does not fit in 31 bits", i, a.secondsPerPoint, a.numberOfPoints)
+		}
+		if end := uint64(off) + uint64(a.numberOfPoints)*pointSize; end > maxOffset {
+			return fmt.Errorf("invalid archive%v: archive end %v does not fit in 32-bit offsets", i, end)
 		}
 
 		if i == len(aa)-1 {
